@@ -169,6 +169,8 @@ def run_cases(run: lib.Run, audit: dict, scale: int = 1):
         case = {"policy": pol, "request": req, "cfg": cfg, "impl": out, "model": model}
         if proj(out) != proj(model):
             run.disagreements.append(case)
+        if extra.get("hyp_c03"):
+            run.count("theorem-hypotheses-hold")
         if extra.get("spec_c03") is False:
             run.spec_failures.append({**case, "spec": "decision differs from the reference evaluation on the most specific matching tier (Rbacx.Spec.c03)"})
         # metamorphic consequence on the real code: an irrelevant rule never changes the decision
